@@ -455,6 +455,15 @@ def r01_3(ctx, counts: dict[str, int]) -> RuleResult:
             if isinstance(x, ast.Call) and isinstance(x.func, ast.Attribute) \
                     and x.func.attr == 'add' and isinstance(x.func.value, ast.Name):
                 sets.add(x.func.value.id)
+            # one level of helper: h(items, node) where h adds its 2nd parameter to its 1st
+            if isinstance(x, ast.Call) and isinstance(x.func, ast.Name) and len(x.args) >= 2 \
+                    and isinstance(x.args[0], ast.Name):
+                h = f.module.toplevel_function(x.func.id)
+                if h is not None and len(h.params()) >= 2 and any(
+                        isinstance(c, ast.Call) and isinstance(c.func, ast.Attribute)
+                        and c.func.attr == 'add' and dotted(c.func.value) == h.params()[0]
+                        for c in walk_local(h.node)):
+                    sets.add(x.args[0].id)
         if not sets:
             res.fail(finding('R01.3', f, f.node, 'no identity set',
                              f'select of {sym!r} keeps no set of already returned nodes: nodes '
@@ -698,6 +707,13 @@ def r01_6(ctx, counts: dict[str, int]) -> RuleResult:
                     cs = _isinstance_classes(st.test, 'self.item')
                     if cs is not None:
                         guards.append((st, cs))
+                    # guard clause: `if not isinstance(self.item, T): return`
+                    t = st.test
+                    if isinstance(t, ast.UnaryOp) and isinstance(t.op, ast.Not) and st.body \
+                            and isinstance(st.body[-1], ast.Return) and not st.orelse:
+                        cs = _isinstance_classes(t.operand, 'self.item')
+                        if cs is not None:
+                            guards.append((st, cs))
                     top_ifs(st.orelse)
         top_ifs(m.node.body)
         if not guards:
